@@ -8,7 +8,7 @@ WT=${SWEEP_WT:-/tmp/sweep_wt}
 BR=${SWEEP_BUILD:-/tmp/sweep_build}
 OUT=$HERE/seeded/_sweep
 mkdir -p "$OUT"
-IDS=${@:-$(ls "$HERE/seeded" | grep -E '^C[0-9]+[AB]$')}
+IDS=${@:-$(ls "$HERE/seeded" | grep -E '^C[0-9]+[ABC]$')}
 cleanup() { git -C /repo worktree remove --force "$WT" 2>/dev/null; rm -rf "$WT" "$BR" /tmp/sweep_out; }
 trap cleanup EXIT
 cleanup
